@@ -6,6 +6,7 @@ import (
 	"context"
 	"fmt"
 	"math/rand"
+	"os"
 	"strings"
 	"sync"
 	"time"
@@ -79,7 +80,15 @@ type uciEvent struct {
 // stressUCI: randomly timed command scripts against the real driver and the four bundled engine
 // configurations; monitors for C04 (exactly one legal bestmove per owed go) and C16 (no crash, no
 // deadlock, readyok for every isready, no stale bestmove, clean shutdown).
+var traceFile *os.File
+
 func stressUCI(seed int64, tier string) {
+	if p := os.Getenv("VERIF_TRACE_FILE"); p != "" {
+		if f, err := os.Create(p); err == nil {
+			traceFile = f
+			defer f.Close()
+		}
+	}
 	r := rand.New(rand.NewSource(seed))
 	rounds := 24
 	if tier == "thorough" {
@@ -174,8 +183,46 @@ func stressUCI(seed int64, tier string) {
 			return len(bests()) >= n
 		}
 		var script []string
+		var mcmds []string // the script in the command alphabet of Model/Driver.v
+		bookAnswers := func() bool {
+			if !book || (name != "bernstein" && name != "sargon") {
+				return false
+			}
+			var bk engine.Book = bernstein.NewBook()
+			if name == "sargon" {
+				bk = sargon.NewBook()
+			}
+			ms, _ := bk.Find(ctx, e.Position())
+			return len(ms) > 0
+		}
 		send := func(l string) {
 			script = append(script, l)
+			f := strings.Fields(l)
+			switch {
+			case len(f) == 0:
+				mcmds = append(mcmds, "j")
+			case f[0] == "isready":
+				mcmds = append(mcmds, "r")
+			case f[0] == "ucinewgame":
+				mcmds = append(mcmds, "n")
+			case f[0] == "position":
+				mcmds = append(mcmds, "p")
+			case f[0] == "stop":
+				mcmds = append(mcmds, "s")
+			case f[0] == "quit":
+				mcmds = append(mcmds, "q")
+			case f[0] == "go":
+				// the loop has consumed everything sent before (every step settles), so the engine position is current
+				time.Sleep(2 * time.Millisecond)
+				if bookAnswers() {
+					mcmds = append(mcmds, "G")
+				} else {
+					inf, mt, clk := strings.Contains(l, "infinite"), strings.Contains(l, "movetime"), strings.Contains(l, "wtime")
+					mcmds = append(mcmds, fmt.Sprintf("g:%s%s%s%s", b01(inf), b01(mt), "1", b01(clk)))
+				}
+			default:
+				mcmds = append(mcmds, "j")
+			}
 			in <- l
 		}
 		nap := func(max int) {
@@ -251,6 +298,9 @@ func stressUCI(seed int64, tier string) {
 					legal := legalSet(cur.f)
 					for _, b := range mid[base:] {
 						answered++
+						if b == "0000" && len(legal) == 0 {
+							continue // a search of a mated or stalemated position ends by itself with the null move
+						}
 						if !legal[b] {
 							report("C04", "book-illegal", strings.Join(script, "; "), fmt.Sprintf("%s: immediate answer %s is not legal in %s", label, b, cur.f))
 						}
@@ -362,6 +412,26 @@ func stressUCI(seed int64, tier string) {
 		case <-closed:
 		case <-time.After(20 * time.Second):
 			report("C16", "no-shutdown", strings.Join(script, "; "), name+": the driver did not close its output after quit / end of input (deadlock)")
+		}
+		// the observable trace for the model's trace checker (Driver.obs_ok)
+		if traceFile != nil {
+			mu.Lock()
+			var obs []string
+			for _, ev := range events {
+				switch {
+				case ev.line == "readyok":
+					obs = append(obs, "R")
+				case strings.HasPrefix(ev.line, "info "):
+					obs = append(obs, "I")
+				case strings.HasPrefix(ev.line, "bestmove"):
+					obs = append(obs, "B")
+				}
+			}
+			mu.Unlock()
+			if len(obs) == 0 {
+				obs = []string{"-"}
+			}
+			fmt.Fprintf(traceFile, "ucitrace %s %s => %s\n", name, strings.Join(mcmds, " "), strings.Join(obs, " "))
 		}
 		if n := count(func(l string) bool { return l == "readyok" }); n != isready && !quit {
 			report("C16", "readyok", strings.Join(script, "; "), fmt.Sprintf("%s: %d isready but %d readyok", name, isready, n))
